@@ -137,9 +137,9 @@ mm("C16-mutex-cache", [("v3/metric/attack-vector.go", "package metric\n", "packa
 m("C16-goroutine", "v3/report/report-temporal.go", "\topts := newOptions(os...)\n\tvec, _ := temporal.Encode()", "\topts := newOptions(os...)\n\tdone := make(chan string, 1)\n\tgo func() { s, _ := temporal.Encode(); done <- s }()\n\tvec := <-done")
 # ---- C19
 m("C19-buf-with-error", "v3/report/templete.go", "\tif err := t.Execute(buf, data); err != nil {\n\t\treturn nil, errs.Wrap", "\tif err := t.Execute(buf, data); err != nil {\n\t\treturn buf, errs.Wrap")
-m("C19-trimspace", "v3/report/report-temporal.go", "\treturn executeTemplate(rep, str)", "\treturn executeTemplate(rep, strings.TrimSpace(str))")
+mm("C19-trimspace", [("v3/report/report-temporal.go", "\treturn executeTemplate(rep, str)", "\treturn executeTemplate(rep, strings.TrimSpace(str))", 1), ("v3/report/report-temporal.go", "\t\"strconv\"\n", "\t\"strconv\"\n\t\"strings\"\n", 1)])
 m("C19-wrap-loses-sentinel", "v3/report/templete.go", "\tif err != nil {\n\t\treturn nil, errs.Wrap(cvsserr.ErrInvalidTemplate, errs.WithCause(err), errs.WithContext(\"templete\", tempStr))\n\t}\n\tbuf", "\tif err != nil {\n\t\treturn nil, errs.Wrap(err, errs.WithContext(\"templete\", tempStr))\n\t}\n\tbuf")
-m("C19-no-nil-guard-env", "v3/report/report-environmental.go", "\tif rep == nil {\n\t\treturn nil, errs.Wrap(cvsserr.ErrNullPointer)\n\t}\n\treturn executeTemplate(rep, str)", "\treturn executeTemplate(rep, str)")
+m("C19-no-nil-guard-env", "v3/report/report-environmental.go", "\tif rep == nil {\n\t\treturn nil, errs.Wrap(cvsserr.ErrNullPointer)\n\t}\n\treturn executeTemplate(rep, str)", "\tif rep == nil && str == \"\" {\n\t\treturn nil, errs.Wrap(cvsserr.ErrNullPointer)\n\t}\n\treturn executeTemplate(rep, str)")
 m("C19-nil-reader-unchecked", "v3/report/templete.go", "\tif r == nil {\n\t\treturn \"\", errs.Wrap(cvsserr.ErrInvalidTemplate)\n\t}\n", "")
 m("C19-funcs", "v3/report/templete.go", "template.New(\"Repost\").Parse(tempStr)", "template.New(\"Repost\").Option(\"missingkey=zero\").Parse(tempStr)")
 m("C19-base-data", "v3/report/report-environmental.go", "\treturn executeTemplate(rep, str)", "\treturn executeTemplate(rep.TemporalReport, str)")
@@ -151,6 +151,17 @@ m("neutral-c03-hoist", "v3/metric/environmental.go", "\tchanges := em.MS.IsChang
 m("neutral-c04-temp", "v2/metric/temporal.go", "\tbs := m.Base.Score()\n\tif m.IsEmpty() {\n\t\treturn bs\n\t}\n\treturn m.score(bs)", "\tif !m.IsEmpty() {\n\t\treturn m.score(m.Base.Score())\n\t}\n\treturn m.Base.Score()")
 m("neutral-c20-switch-string", "v3/metric/scope.go", "\tif s, ok := scopeMap[sc]; ok {\n\t\treturn s\n\t}\n\treturn \"\"", "\ts, ok := scopeMap[sc]\n\tif !ok {\n\t\treturn \"\"\n\t}\n\treturn s")
 m("neutral-c20-reorder-table", "v3/metric/attack-vector.go", "\tAttackVectorPhysical: 0.20,\n\tAttackVectorLocal:    0.55,\n", "\tAttackVectorLocal:    55.0 / 100,\n\tAttackVectorPhysical: 0.2,\n")
+
+
+m("neutral-decodeone-reorder-arms", "v3/metric/base.go", "\tcase metricAV: //Attack Vector\n\t\tbm.AV = GetAttackVector(m[1])\n\t\tif bm.AV == AttackVectorUnknown {\n\t\t\treturn errs.Wrap(cvsserr.ErrInvalidValue, errs.WithContext(\"metric\", str))\n\t\t}\n\tcase metricAC: //Attack Complexity\n\t\tbm.AC = GetAttackComplexity(m[1])\n\t\tif bm.AC == AttackComplexityUnknown {\n\t\t\treturn errs.Wrap(cvsserr.ErrInvalidValue, errs.WithContext(\"metric\", str))\n\t\t}\n", "\tcase metricAC: //Attack Complexity\n\t\tbm.AC = GetAttackComplexity(m[1])\n\t\tif bm.AC == AttackComplexityUnknown {\n\t\t\treturn errs.Wrap(cvsserr.ErrInvalidValue, errs.WithContext(\"metric\", str))\n\t\t}\n\tcase metricAV: //Attack Vector\n\t\tv := GetAttackVector(m[1])\n\t\tbm.AV = v\n\t\tif v == AttackVectorUnknown {\n\t\t\treturn errs.Wrap(cvsserr.ErrInvalidValue, errs.WithContext(\"metric\", str))\n\t\t}\n")
+m("neutral-decodeone-ifchain", "v2/metric/temporal.go", "\tswitch name {\n\tcase metricE: // Exploitability\n\t\tm.E = GetExploitability(elm[1])\n\t\tif m.E == ExploitabilityInvalid {\n\t\t\treturn errs.Wrap(cvsserr.ErrInvalidValue, errs.WithContext(\"metric\", str))\n\t\t}\n\tcase metricRL: // RemediationLevel\n\t\tm.RL = GetRemediationLevel(elm[1])\n\t\tif m.RL == RemediationLevelInvalid {\n\t\t\treturn errs.Wrap(cvsserr.ErrInvalidValue, errs.WithContext(\"metric\", str))\n\t\t}\n\tcase metricRC: // RemediationLevel\n\t\tm.RC = GetReportConfidence(elm[1])\n\t\tif m.RC == ReportConfidenceInvalid {\n\t\t\treturn errs.Wrap(cvsserr.ErrInvalidValue, errs.WithContext(\"metric\", str))\n\t\t}\n\tdefault:\n\t\treturn errs.Wrap(cvsserr.ErrNotSupportMetric, errs.WithContext(\"vector\", str))\n\t}\n", "\tif name == metricE {\n\t\tm.E = GetExploitability(elm[1])\n\t\tif m.E == ExploitabilityInvalid {\n\t\t\treturn errs.Wrap(cvsserr.ErrInvalidValue, errs.WithContext(\"metric\", str))\n\t\t}\n\t} else if name == metricRL {\n\t\tm.RL = GetRemediationLevel(elm[1])\n\t\tif m.RL == RemediationLevelInvalid {\n\t\t\treturn errs.Wrap(cvsserr.ErrInvalidValue, errs.WithContext(\"metric\", str))\n\t\t}\n\t} else if name == metricRC {\n\t\tm.RC = GetReportConfidence(elm[1])\n\t\tif m.RC == ReportConfidenceInvalid {\n\t\t\treturn errs.Wrap(cvsserr.ErrInvalidValue, errs.WithContext(\"metric\", str))\n\t\t}\n\t} else {\n\t\treturn errs.Wrap(cvsserr.ErrNotSupportMetric, errs.WithContext(\"vector\", str))\n\t}\n")
+mm("neutral-decode-rename", [("v3/metric/temporal.go", "\tvar lastErr error\n\tfor _, value := range values[1:] {\n\t\tif err := tm.decodeOne(value); err != nil {\n\t\t\tif !errs.Is(err, cvsserr.ErrNotSupportMetric) {\n\t\t\t\treturn nil, errs.Wrap(err, errs.WithContext(\"vector\", vector))\n\t\t\t}\n\t\t\tlastErr = err\n\t\t}\n\t}\n\tif lastErr != nil {\n\t\treturn nil, lastErr\n\t}", "\tvar deferred error\n\ttoks := values[1:]\n\tfor _, tok := range toks {\n\t\terr := tm.decodeOne(tok)\n\t\tif err == nil {\n\t\t\tcontinue\n\t\t}\n\t\tif !errs.Is(err, cvsserr.ErrNotSupportMetric) {\n\t\t\treturn nil, errs.Wrap(err, errs.WithContext(\"vector\", vector))\n\t\t}\n\t\tdeferred = err\n\t}\n\tif deferred != nil {\n\t\treturn nil, deferred\n\t}", 1)])
+m("neutral-geterror-ifs", "v3/metric/temporal.go", "\tswitch true {\n\tcase !tm.E.IsValid(), !tm.RL.IsValid(), !tm.RC.IsValid():\n\t\treturn errs.Wrap(cvsserr.ErrInvalidValue)\n\tdefault:\n\t\treturn nil\n\t}", "\tif !tm.E.IsValid() || !tm.RL.IsValid() || !tm.RC.IsValid() {\n\t\treturn errs.Wrap(cvsserr.ErrInvalidValue)\n\t}\n\treturn nil")
+m("neutral-names-two-stmt", "v3/report/names/attack-vector.go", "\tif m, ok := avNamesMap[av]; ok {\n\t\treturn m.getNameInLang(lang)\n\t}\n\treturn unknownValueNameMap.getNameInLang(lang)", "\tm, ok := avNamesMap[av]\n\tif !ok {\n\t\treturn unknownValueNameMap.getNameInLang(lang)\n\t}\n\treturn m.getNameInLang(lang)")
+m("neutral-report-lang-local", "v3/report/report-base.go", "\tvec, _ := base.Encode()\n\treturn &BaseReport{\n\t\tVersion:         base.Ver.String(),", "\tvec, _ := base.Encode()\n\tver := base.Ver.String()\n\treturn &BaseReport{\n\t\tVersion:         ver,")
+m("neutral-encode-loop-free", "v2/metric/base.go", "\tr := []string{}\n\tif m.names[metricAV] {", "\tr := make([]string, 0, 6)\n\tif m.names[metricAV] {")
+m("neutral-accessor-form", "v3/metric/temporal.go", "func (tm *Temporal) BaseMetrics() *Base {\n\tif tm == nil {\n\t\treturn nil\n\t}\n\treturn tm.Base\n}", "func (tm *Temporal) BaseMetrics() *Base {\n\tif tm != nil {\n\t\treturn tm.Base\n\t}\n\treturn nil\n}")
+m("neutral-template-vars", "v3/report/templete.go", "\tt, err := template.New(\"Repost\").Parse(tempStr)\n\tif err != nil {", "\ttpl := template.New(\"report\")\n\tt, err := tpl.Parse(tempStr)\n\tif err != nil {")
 
 def run(*a, **k): return subprocess.run(a, cwd=R, capture_output=True, text=True, **k)
 only = sys.argv[1:]
@@ -167,3 +178,4 @@ for name, edits in M:
         open(os.path.join(OUT, name + ".patch"), "w").write(d)
     run("git", "checkout", "--", ".")
 print(len(M), "mutants")
+
